@@ -144,3 +144,80 @@ func factsUpstream() {
 	defBool("healthCheckOnCreate", first >= 0)
 	defBool("healthCheckLoopUnconditional", loop >= 0 && first >= 0 && first < loop)
 }
+
+// factsProxyTimeout: the location's proxy timeout is attached to the request context the reverse proxy uses
+// (c.WithContext(ctx) inside `if l.ProxyTimeout != 0`), and the transport of an upstream sets no cap on the
+// number of concurrent connections per host.
+func factsProxyTimeout() {
+	section("server/proxy.go proxy timeout; upstream/upstream.go transport")
+	attached := false
+	if fd := funcDecl(parse("server/proxy.go"), "", "NewProxy"); fd != nil {
+		ast.Inspect(fd.Body, func(n ast.Node) bool {
+			is, ok := n.(*ast.IfStmt)
+			if !ok || nsrc(is.Cond) != "l.ProxyTimeout!=0" {
+				return true
+			}
+			hasCtx, hasAttach := false, false
+			for _, st := range is.Body.List {
+				switch x := st.(type) {
+				case *ast.AssignStmt:
+					if len(x.Rhs) == 1 && nsrc(x.Rhs[0]) == "context.WithTimeout(c.Context(),l.ProxyTimeout)" {
+						hasCtx = true
+					}
+				case *ast.ExprStmt:
+					if nsrc(x.X) == "c.WithContext(ctx)" {
+						hasAttach = true
+					}
+				}
+			}
+			attached = hasCtx && hasAttach
+			return true
+		})
+	}
+	defBool("proxyTimeoutAttached", attached)
+	var fields []string
+	if fd := funcDecl(parse("upstream/upstream.go"), "", "newTransport"); fd != nil {
+		ast.Inspect(fd.Body, func(n ast.Node) bool {
+			cl, ok := n.(*ast.CompositeLit)
+			if !ok || nsrc(cl.Type) != "http.Transport" {
+				return true
+			}
+			for _, el := range cl.Elts {
+				if kv, ok := el.(*ast.KeyValueExpr); ok {
+					fields = append(fields, nsrc(kv.Key))
+				}
+			}
+			return false
+		})
+	}
+	sort.Strings(fields)
+	defStrList("transportFields", fields)
+}
+
+// factsLRUCallbacks: does anything install an eviction callback on a shard's LRU?  (the model's eviction
+// just drops the least recently used key; a callback could re-insert or recycle the entry)
+func factsLRUCallbacks() {
+	section("cache/*.go: lru.Cache.OnEvicted")
+	var sites []string
+	for _, rel := range []string{"cache/dispatcher.go", "cache/http_cache.go", "cache/cache.go", "cache/http_response.go"} {
+		f := parse(rel)
+		if f == nil {
+			continue
+		}
+		ast.Inspect(f, func(n ast.Node) bool {
+			switch x := n.(type) {
+			case *ast.SelectorExpr:
+				if x.Sel.Name == "OnEvicted" {
+					sites = append(sites, fmt.Sprintf("%s:%d", rel, fset.Position(x.Pos()).Line))
+				}
+			case *ast.KeyValueExpr:
+				if nsrc(x.Key) == "OnEvicted" {
+					sites = append(sites, fmt.Sprintf("%s:%d", rel, fset.Position(x.Pos()).Line))
+				}
+			}
+			return true
+		})
+	}
+	sort.Strings(sites)
+	defStrList("lruOnEvictedSites", sites)
+}
